@@ -23,42 +23,42 @@ var pureNone = extSum{why: "reads its arguments only"}
 
 var extSummaries = map[string]extSum{
 	// bytes / strings / sort / fmt
-	"bytes.Compare":   pureNone,
-	"bytes.Equal":     pureNone,
-	"strings.Join":    pureFresh,
-	"strings.Repeat":  pureFresh,
-	"strings.Split":   pureFresh,
-	"strings.TrimLeft": {ret: "arg:0", why: "substring of the argument"},
+	"bytes.Compare":     pureNone,
+	"bytes.Equal":       pureNone,
+	"strings.Join":      pureFresh,
+	"strings.Repeat":    pureFresh,
+	"strings.Split":     pureFresh,
+	"strings.TrimLeft":  {ret: "arg:0", why: "substring of the argument"},
 	"strings.HasPrefix": pureNone,
 	"strings.HasSuffix": pureNone,
 	"strings.Index":     pureNone,
 	"strings.Contains":  pureNone,
-	"fmt.Sprintf":     pureFresh,
-	"fmt.Sprint":      pureFresh,
-	"fmt.Sprintln":    pureFresh,
-	"fmt.Errorf":      pureFresh,
-	"sort.Strings":    {writes: []int{0}, why: "sorts the slice in place"},
-	"sort.Ints":       {writes: []int{0}, why: "sorts the slice in place"},
-	"sort.Slice":      {writes: []int{0}, calls: []int{1}, why: "swaps elements of the slice; calls less"},
-	"sort.SliceStable": {writes: []int{0}, calls: []int{1}, why: "swaps elements of the slice; calls less"},
-	"sort.Sort":       {writes: []int{0}, why: "calls Swap on the argument"},
-	"sort.Search":     {calls: []int{1}, why: "calls f"},
+	"fmt.Sprintf":       pureFresh,
+	"fmt.Sprint":        pureFresh,
+	"fmt.Sprintln":      pureFresh,
+	"fmt.Errorf":        pureFresh,
+	"sort.Strings":      {writes: []int{0}, why: "sorts the slice in place"},
+	"sort.Ints":         {writes: []int{0}, why: "sorts the slice in place"},
+	"sort.Slice":        {writes: []int{0}, calls: []int{1}, why: "swaps elements of the slice; calls less"},
+	"sort.SliceStable":  {writes: []int{0}, calls: []int{1}, why: "swaps elements of the slice; calls less"},
+	"sort.Sort":         {writes: []int{0}, why: "calls Swap on the argument"},
+	"sort.Search":       {calls: []int{1}, why: "calls f"},
 
-	"bytes.NewBuffer":         {ret: "fresh", retHolds: []int{0}, why: "the Buffer takes ownership of buf"},
-	"bytes.NewBufferString":   pureFresh,
-	"bytes.NewReader":         {ret: "fresh", retHolds: []int{0}, why: "the Reader reads from b; it never writes it"},
-	"(*bytes.Buffer).Write":   {writes: []int{0}, why: "appends a copy of p to the buffer"},
+	"bytes.NewBuffer":             {ret: "fresh", retHolds: []int{0}, why: "the Buffer takes ownership of buf"},
+	"bytes.NewBufferString":       pureFresh,
+	"bytes.NewReader":             {ret: "fresh", retHolds: []int{0}, why: "the Reader reads from b; it never writes it"},
+	"(*bytes.Buffer).Write":       {writes: []int{0}, why: "appends a copy of p to the buffer"},
 	"(*bytes.Buffer).WriteString": {writes: []int{0}, why: "appends a copy"},
 	"(*bytes.Buffer).WriteByte":   {writes: []int{0}, why: "appends"},
-	"(*bytes.Buffer).Bytes":   {ret: "contents:0", why: "returns the unread portion of the internal buffer"},
-	"(*bytes.Buffer).String":  pureFresh,
-	"(*bytes.Buffer).Len":     pureNone,
-	"(*bytes.Buffer).Reset":   {writes: []int{0}, why: "resets the buffer"},
-	"(*bytes.Buffer).Read":    {writes: []int{0, 1}, why: "advances the buffer, fills p"},
-	"(*bytes.Reader).Read":    {writes: []int{0, 1}, why: "advances the reader (its own offset), copies into p"},
-	"(*bytes.Reader).Len":     pureNone,
-	"io.ReadFull":             {writes: []int{0, 1}, why: "calls r.Read(buf): advances the reader, fills buf with copies"},
-	"io.ReadAll":              {writes: []int{0}, ret: "fresh", why: "reads into a fresh slice"},
+	"(*bytes.Buffer).Bytes":       {ret: "contents:0", why: "returns the unread portion of the internal buffer"},
+	"(*bytes.Buffer).String":      pureFresh,
+	"(*bytes.Buffer).Len":         pureNone,
+	"(*bytes.Buffer).Reset":       {writes: []int{0}, why: "resets the buffer"},
+	"(*bytes.Buffer).Read":        {writes: []int{0, 1}, why: "advances the buffer, fills p"},
+	"(*bytes.Reader).Read":        {writes: []int{0, 1}, why: "advances the reader (its own offset), copies into p"},
+	"(*bytes.Reader).Len":         pureNone,
+	"io.ReadFull":                 {writes: []int{0, 1}, why: "calls r.Read(buf): advances the reader, fills buf with copies"},
+	"io.ReadAll":                  {writes: []int{0}, ret: "fresh", why: "reads into a fresh slice"},
 
 	// encoding/binary
 	"(encoding/binary.littleEndian).Uint16":    pureNone,
@@ -78,22 +78,22 @@ var extSummaries = map[string]extSum{
 	"encoding/binary.Size":                     pureNone,
 
 	// reflect (read-only accessors used by the library)
-	"reflect.ValueOf":            {ret: "arg:0", why: "wraps the value"},
-	"reflect.TypeOf":             pureFresh,
-	"reflect.Indirect":           {ret: "arg:0", why: "dereference"},
-	"reflect.New":                pureFresh,
-	"(reflect.Value).Kind":       pureNone,
-	"(reflect.Value).Len":        pureNone,
-	"(reflect.Value).IsNil":      pureNone,
-	"(reflect.Value).Index":      {ret: "arg:0", why: "element of the same memory"},
-	"(reflect.Value).Interface":  {ret: "arg:0", why: "boxes the value (copy of scalars, alias of references)"},
-	"(reflect.Value).Type":       pureFresh,
-	"(reflect.Value).Elem":       {ret: "arg:0", why: "pointee"},
-	"(*reflect.rtype).Kind":      pureNone,
-	"(*reflect.rtype).Elem":      pureFresh,
-	"iface reflect.Type.Kind":    pureNone,
-	"iface reflect.Type.Elem":    pureFresh,
-	"iface reflect.Type.String":  pureFresh,
+	"reflect.ValueOf":           {ret: "arg:0", why: "wraps the value"},
+	"reflect.TypeOf":            pureFresh,
+	"reflect.Indirect":          {ret: "arg:0", why: "dereference"},
+	"reflect.New":               pureFresh,
+	"(reflect.Value).Kind":      pureNone,
+	"(reflect.Value).Len":       pureNone,
+	"(reflect.Value).IsNil":     pureNone,
+	"(reflect.Value).Index":     {ret: "arg:0", why: "element of the same memory"},
+	"(reflect.Value).Interface": {ret: "arg:0", why: "boxes the value (copy of scalars, alias of references)"},
+	"(reflect.Value).Type":      pureFresh,
+	"(reflect.Value).Elem":      {ret: "arg:0", why: "pointee"},
+	"(*reflect.rtype).Kind":     pureNone,
+	"(*reflect.rtype).Elem":     pureFresh,
+	"iface reflect.Type.Kind":   pureNone,
+	"iface reflect.Type.Elem":   pureFresh,
+	"iface reflect.Type.String": pureFresh,
 
 	// errors: the error retains its cause/message only
 	"github.com/openacid/errors.New":         pureFresh,
@@ -120,29 +120,29 @@ var extSummaries = map[string]extSum{
 	"github.com/blang/semver.MustParse":  pureFresh,
 
 	// sync: accepted synchronised idioms
-	"(*sync.Once).Do":        {writes: []int{0}, calls: []int{1}, sync: true, why: "runs f exactly once with happens-before to all callers"},
-	"(*sync.Mutex).Lock":     {writes: []int{0}, sync: true, why: "mutex"},
-	"(*sync.Mutex).Unlock":   {writes: []int{0}, sync: true, why: "mutex"},
-	"(*sync.RWMutex).Lock":   {writes: []int{0}, sync: true, why: "mutex"},
-	"(*sync.RWMutex).Unlock": {writes: []int{0}, sync: true, why: "mutex"},
-	"(*sync.RWMutex).RLock":  {writes: []int{0}, sync: true, why: "mutex"},
+	"(*sync.Once).Do":         {writes: []int{0}, calls: []int{1}, sync: true, why: "runs f exactly once with happens-before to all callers"},
+	"(*sync.Mutex).Lock":      {writes: []int{0}, sync: true, why: "mutex"},
+	"(*sync.Mutex).Unlock":    {writes: []int{0}, sync: true, why: "mutex"},
+	"(*sync.RWMutex).Lock":    {writes: []int{0}, sync: true, why: "mutex"},
+	"(*sync.RWMutex).Unlock":  {writes: []int{0}, sync: true, why: "mutex"},
+	"(*sync.RWMutex).RLock":   {writes: []int{0}, sync: true, why: "mutex"},
 	"(*sync.RWMutex).RUnlock": {writes: []int{0}, sync: true, why: "mutex"},
-	"(*sync.Pool).Get":       {writes: []int{0}, sync: true, ret: "fresh", why: "hands out an object no other goroutine holds"},
-	"(*sync.Pool).Put":       {writes: []int{0}, sync: true, why: "pool"},
+	"(*sync.Pool).Get":        {writes: []int{0}, sync: true, ret: "fresh", why: "hands out an object no other goroutine holds"},
+	"(*sync.Pool).Put":        {writes: []int{0}, sync: true, why: "pool"},
 
 	// interfaces declared outside the analysed set
-	"iface io.Writer.Write": {writes: []int{0}, why: "consumes a copy of p (io.Writer contract: must not modify or retain p)"},
-	"iface io.Reader.Read":  {writes: []int{0, 1}, why: "fills p; advances the reader"},
+	"iface io.Writer.Write":                                       {writes: []int{0}, why: "consumes a copy of p (io.Writer contract: must not modify or retain p)"},
+	"iface io.Reader.Read":                                        {writes: []int{0, 1}, why: "fills p; advances the reader"},
 	"iface github.com/golang/protobuf/proto.Message.Reset":        {writes: []int{0}, why: "resets the message"},
 	"iface github.com/golang/protobuf/proto.Message.String":       pureFresh,
 	"iface github.com/golang/protobuf/proto.Message.ProtoMessage": pureNone,
-	"iface encoding/binary.ByteOrder.Uint16":    pureNone,
-	"iface encoding/binary.ByteOrder.Uint32":    pureNone,
-	"iface encoding/binary.ByteOrder.Uint64":    pureNone,
-	"iface encoding/binary.ByteOrder.PutUint16": {writes: []int{1}, why: "stores into b"},
-	"iface encoding/binary.ByteOrder.PutUint32": {writes: []int{1}, why: "stores into b"},
-	"iface encoding/binary.ByteOrder.PutUint64": {writes: []int{1}, why: "stores into b"},
-	"iface encoding/binary.ByteOrder.String":    pureFresh,
+	"iface encoding/binary.ByteOrder.Uint16":                      pureNone,
+	"iface encoding/binary.ByteOrder.Uint32":                      pureNone,
+	"iface encoding/binary.ByteOrder.Uint64":                      pureNone,
+	"iface encoding/binary.ByteOrder.PutUint16":                   {writes: []int{1}, why: "stores into b"},
+	"iface encoding/binary.ByteOrder.PutUint32":                   {writes: []int{1}, why: "stores into b"},
+	"iface encoding/binary.ByteOrder.PutUint64":                   {writes: []int{1}, why: "stores into b"},
+	"iface encoding/binary.ByteOrder.String":                      pureFresh,
 }
 
 // prefix summaries: whole packages of pure functions.
